@@ -27,13 +27,13 @@ PROPS["C12"] = {
 
 RULES["C06"] = ("cases: (a,x,x2) with a = k/2, k from shapes the tests use / [1,40] / [41,1000] / [1001,10000]; x from a mixture: a(1+d) and 1+d "
                 "with d log-uniform +-[1e-16,0.3] (both switch-over lines, both sides), a+z sqrt(a) z in [-8,12], a-u sqrt(a) and a+u sqrt(a) (where the series / continued fraction need the most iterations), uniform [0,20a+200], [0,3a], "
-                "0, negative, the prefactor-underflow cut-off (a ln x - x - lgamma a = -709.78, found by bisection) +- drawn width, tiny x; "
+                "0, negative, exactly ON the lines x = 1 and x = a and one ulp to either side for every a = k/2, k = 1..600 (sweep), the prefactor-underflow cut-off (a ln x - x - lgamma a = -709.78, found by bisection) +- drawn width, tiny x; "
                 "in a third of the cases 1-3 earlier calls with shapes a + j*2^p (p in 6..17, j in 1..3; possibly beyond 5000) precede the call (history); x2 >= x is a 1-4 ulp neighbour, a relative 1e-12..0.3 neighbour or a far point (monotonicity). "
                 "non-trivial: reference Q strictly inside (1e-300,1). distinct: hash of (2a,x,x2).")
 PROPS["C06"] = {
     "level": "exploration",
-    "quick": shards(8, "TestC06", 4000, floor=2000),
-    "thorough": shards(14, "TestC06", 60000, floor=20000) + [S("FuzzIgamc", fuzz="FuzzIgamc", fuzztime=60, parallel=4, floor=1000, weight=4, timeout=600)],
+    "quick": shards(8, "TestC06", 4000, floor=2000) + [S("TestC06Sweep", floor=1000)],
+    "thorough": [S("TestC06Sweep", floor=1000)] + shards(14, "TestC06", 60000, floor=20000) + [S("FuzzIgamc", fuzz="FuzzIgamc", fuzztime=60, parallel=4, floor=1000, weight=4, timeout=600)],
     "assumptions": ["reference = finite-sum closed form in 320-bit big.Float, validated against mpmath (600 points) on every run",
                     "math.Erfc trusted (<= 1 ulp)", "x > 20a+200 is outside the stated range and not generated"],
 }
@@ -124,7 +124,7 @@ PROPS["C19"] = {
 _STREAM = ("streams are composed by rapid from a committed pool of classified PRNG samples (search guidance only; every oracle recomputes all results on the current tree): "
            "targets {pass count of a drawn item at allowed-1..allowed+2 failing samples, ten-bin Q histogram of a drawn item drawn from all partitions of s with uniformity P in [1e-6,1e-2] "
            "in a drawn bin order, two items failing, 'half' (a two-sided item whose Q-values all lie in one half of [0,1]: the Q histogram fails while the P histogram would pass), 'mixed' (item i fails only the uniformity criterion with a two-bin histogram while a later item j fails only the pass count), 'one-bad' (all-pass samples plus exactly the tolerated number of stuck-at samples), random pool samples, all-pass samples, (periodic) 20 degree-63 LFSR samples that only the excluded items 13-15 reject}, samples shuffled, "
-           "0 / 1 / sampleBytes-1 / sampleBytes / 3*sampleBytes trailing bytes (zero or random). ")
+           "0 / 1 / sampleBytes-1 / sampleBytes / 3*sampleBytes trailing bytes (zero or random); an eighth of the streams end exactly after the last sample with io.EOF returned together with the final bytes, an eighth come from a standard *bytes.Reader / *os.File positioned behind a header of zeros. ")
 RULES["C07"] = (_STREAM + "oracle: independent decision model (exact-integer threshold, own binning, big.Float igamc) over the registry runners' results on each sample: verdict equal, nil error iff true, "
                 "error names an item violating a criterion; (periodic) same outcome with and without the trailing bytes. non-trivial: some item's pass count in {t-1,t} or some item's uniformity P in [1e-5,1e-3]. "
                 "distinct: hash of the case JSON.")
@@ -159,10 +159,10 @@ PROPS["C08"] = {
 }
 
 RULES["C09"] = ("fault points: workflow in {factory, poweron, period} x {sequential, parallel} and single-shot; failure kind in {io.EOF, io.ErrUnexpectedEOF, custom error, error returned with a partial read, "
-                "transient error followed by more data}; offset enumerated: SingleDetect every offset for numByte in {16,40,1280}; periodic workflows every sample boundary -1/0/+1, first/last three offsets, two interior ones; "
+                "transient error followed by more data, an error of its own concrete type followed by io.EOF, a never-ending error that claims Temporary() == true}; offset enumerated: SingleDetect every offset for numByte in {16,40,1280}; periodic workflows every sample boundary -1/0/+1, first/last three offsets, two interior ones; "
                 "10^6-bit workflows offsets {0,1,mid-sample,sample-1,sample,sample+1} (thorough: also deep/last-sample offsets); plus rapid-drawn offsets, read-delay plans and GOMAXPROCS for the parallel variants. "
                 "oracle: returns (false, err != nil); 'returns' is decided by a quiescence detector (three consecutive 100 ms snapshots in which every goroutine with a library frame is parked on a channel/semaphore/mutex) "
-                "not by a stopwatch; afterwards the library goroutines drain back to the baseline. non-trivial: at least one full sample was delivered before the failure (single-shot: offset > 0). distinct: hash of the case JSON.")
+                "not by a stopwatch (a workflow that is still reading after 10^6 failed Reads of a permanently failing source is judged a livelock); afterwards the library goroutines drain back to the baseline. non-trivial: at least one full sample was delivered before the failure (single-shot: offset > 0). distinct: hash of the case JSON.")
 PROPS["C09"] = {
     "level": "fault_enumeration",
     "quick": [S("TestC09Enum", mode="single", floor=1000)] + [S("TestC09Enum", mode="period", floor=50, env={"VERIF_PART": i, "VERIF_PARTS": 4}) for i in range(4)]
